@@ -454,7 +454,10 @@ fn r_edit(evs: &[DEv], r: &Rendered, tree: &Tree, plan: &Plan, enc: &'static enc
                         let mut removed = false;
                         let mut replacement: Option<(String, bool)> = None;
                         let mut name: Option<String> = None;
-                        for &ni in &closed[emit_from..] {
+                        // (elements inside content that is being removed included: their end-tag
+                        // records land on this token all the same)
+                        let _ = emit_from;
+                        for &ni in &closed[..] {
                             let st = &states[ni];
                             if st.end_mut {
                                 before = st.end_list.clone();
@@ -796,6 +799,14 @@ pub fn run_check(ctx: &Ctx) -> i32 {
         vec![Item::El(Op::After("\x03".into(), true)), Item::El(Op::Prepend("\x04".into(), true))],
         vec![Item::El(Op::SetAttr("s".into(), "1".into()))],
         vec![Item::End(Op::Before("\x05".into(), true))],
+        // a second handler (on every element, so also on ancestors and descendants of `a`) that
+        // removes, replaces, empties, unwraps or renames
+        vec![Item::El(Op::Remove)],
+        vec![Item::El(Op::Replace("\x06".into(), true))],
+        vec![Item::El(Op::SetInner("\x07".into(), true))],
+        vec![Item::El(Op::RemoveKeepContent)],
+        vec![Item::El(Op::SetTagName("z".into()))],
+        vec![Item::El(Op::RemoveKeepContent), Item::El(Op::Before("\x08".into(), true)), Item::El(Op::After("\x09".into(), true))],
     ];
     let mut plans2 = vec![];
     for a in &menu {
